@@ -689,7 +689,13 @@ func (db *RockDB) SetIfEQ(ts int64, rawKey []byte, oldV []byte, value []byte, du
 	}
 	var n int64 = 1
 
-	if !bytes.Equal(realV, oldV) && !keyInfo.Expired {
+	curV := realV
+	if keyInfo.Expired {
+		// an expired value is dead: the comparison sees an absent key, as it does once the
+		// value has been removed by a compaction
+		curV = nil
+	}
+	if !bytes.Equal(curV, oldV) {
 		n = 0
 	} else {
 		if realV == nil && !keyInfo.Expired {
